@@ -627,6 +627,19 @@ def run(prog, rep, tier):
         rep.unrec("R4-readonly", init.qualname, "initialize() does not unpack initop.initialize() in the modelled form")
 
     allowed_writers = {"__init__", "initialize"}
+    # a private helper that is called from nowhere but __init__ / initialize of this class writes on their behalf
+    own = {f_.name: f_ for f_ in cls.methods.values()}
+    for hname, h in own.items():
+        if not hname.startswith("_") or hname.startswith("__"):
+            continue
+        callers = {f_.name for f_ in own.values() for x in walk_no_nested(f_.node) if isinstance(x, ast.Call) and isinstance(x.func, ast.Attribute)
+                   and x.func.attr == hname and dump(x.func.value) == "self"}
+        elsewhere = any(isinstance(x, ast.Attribute) and x.attr == hname for m_ in prog.modules.values() for x in ast.walk(m_.tree)
+                        if not any(x in list(ast.walk(own[c_].node)) for c_ in callers if c_ in own)) if callers else True
+        unreferenced = not any(isinstance(x, ast.Attribute) and x.attr == hname for m_ in prog.modules.values() for x in ast.walk(m_.tree))
+        if (callers and callers <= {"__init__", "initialize"} and not elsewhere) or (not callers and unreferenced):
+            # (unreferenced: the model has put a new helper's body back at its call sites, where its stores are judged; the left-over definition is never called)
+            allowed_writers.add(hname)
     for c in prog.mro_classes(cls):
         funcs = list(c.methods.values())
         for p in c.own_props.values():
